@@ -240,6 +240,73 @@ pub fn run(args: &Args) -> i32 {
             ffi::rodbus_server_destroy(server);
         }
     }
+    // an IPv6 peer (::1) against a C-ABI TCP server listening on ::1: IPv4 wildcards - the all-stars
+    // pattern included - and IPv4 addresses do not match it; `any`, the exact address and a set holding it do
+    {
+        use std::net::Ipv6Addr;
+        let v6 = IpAddr::V6(Ipv6Addr::LOCALHOST);
+        let filters = [
+            F::Wildcard([None, None, None, None]),
+            F::Wildcard([Some(127), None, None, None]),
+            F::Exact(IpAddr::V4(Ipv4Addr::LOCALHOST)),
+            F::Exact(v6),
+            F::AnyOf(vec![IpAddr::V4(Ipv4Addr::new(127, 0, 0, 9)), v6]),
+            F::AnyOf(vec![IpAddr::V4(Ipv4Addr::new(127, 0, 0, 9)), IpAddr::V6(Ipv6Addr::new(0, 0, 0, 0, 0, 0, 0, 2))]),
+            F::Any,
+        ];
+        for f in filters.iter() {
+            unsafe {
+                let Ok(filter) = c_filter(f, &mut ev) else {
+                    ev.violation(format!("c_abi:filter_rejected:{}", f.class()), format!("rodbus_address_filter_create/add rejected {f:?}"), json!({"filter": format!("{f:?}")}));
+                    continue;
+                };
+                let map = ffi::rodbus_device_map_create();
+                let (_wh, handler) = write_handler(false);
+                let (_c, cb) = db_callback_with(|db| {
+                    ffi::rodbus_database_add_holding_register(db, 0, 0x1234);
+                });
+                ffi::rodbus_device_map_add_endpoint(map, 1, handler, cb);
+                let port = next_port();
+                let ip = cstr("::1");
+                let mut server = std::ptr::null_mut();
+                let rc = ffi::rodbus_server_create_tcp(rt.0, ip.as_ptr(), port, filter, 8, map, decode(0, 0, 0), &mut server);
+                ffi::rodbus_address_filter_destroy(filter);
+                ffi::rodbus_device_map_destroy(map);
+                if rc != 0 {
+                    ev.count("ipv6_loopback_unavailable", 1);
+                    continue;
+                }
+                let want = f.matches(v6);
+                let got = match TcpStream::connect((Ipv6Addr::LOCALHOST, port)) {
+                    Err(_) => {
+                        ev.count("ipv6_loopback_unavailable", 1);
+                        ffi::rodbus_server_destroy(server);
+                        continue;
+                    }
+                    Ok(mut s) => {
+                        s.set_read_timeout(Some(Duration::from_secs(3))).ok();
+                        s.set_nodelay(true).ok();
+                        match read_pdu(&mut s, 0x4243, 1, 3, 0, 1) {
+                            Some(p) if p.first().map(|b| b & 0x7F) == Some(3) => "served",
+                            Some(_) => "other",
+                            None => "not_served",
+                        }
+                    }
+                };
+                ev.eval();
+                ev.count("connections_observed", 1);
+                ev.count("ipv6_connections_observed", 1);
+                ev.class(format!("tcp|c_abi|{}|v6|{}", f.class(), if want { "match" } else { "no_match" }));
+                let rep = json!({"filter": format!("{f:?}"), "source": "::1", "variant": "tcp", "api": "c_abi"});
+                if want && got != "served" {
+                    ev.violation(format!("tcp:c_abi:{}:v6:matching_peer_not_served", f.class()), format!("C ABI TCP server on ::1: filter {f:?} matches ::1 but the connection was {got}"), rep);
+                } else if !want && got != "not_served" {
+                    ev.violation(format!("tcp:c_abi:{}:v6:non_matching_peer_{got}", f.class()), format!("C ABI TCP server on ::1: filter {f:?} does not match ::1 but the peer was {got}"), rep);
+                }
+                ffi::rodbus_server_destroy(server);
+            }
+        }
+    }
     // parser through the C ABI: a few strings that must be rejected / accepted
     for (s, ok) in [("*.*.*.*", true), ("1.2.3", false), ("1.2.3.4.5", false), ("256.1.1.1", false), ("a.b.c.d", false), ("", false), ("127.0.*.1", true), ("::1", true), ("1..2.3", false)] {
         let mut out = std::ptr::null_mut();
